@@ -35,6 +35,13 @@ def sha(s):
     return hashlib.sha256(s.encode()).hexdigest()[:24]
 
 
+def csha(src):
+    """sha of the canonical form of a generated source (temporaries inlined, computed slots
+    named by content, runs sorted): see harness/props/c13_canon.py"""
+    from harness.props.c13_canon import canon_code
+    return sha(canon_code(src))
+
+
 class Env:
     def __init__(self):
         import pyiga
@@ -179,11 +186,13 @@ def mode_forms(env, payload):
             res.append(r)
             continue
         r['code'] = {}
+        r['raw'] = {}
         for od in (False, True):
             try:
                 vf2 = env.build(spec)
                 src = env.compile.generate(vf2, on_demand=od)
-                r['code']['1' if od else '0'] = sha(src)
+                r['code']['1' if od else '0'] = csha(src)
+                r['raw']['1' if od else '0'] = sha(src)
                 # the generator must not change the key of the form it was given
                 if str(vf2.hash()) != r['hash']:
                     r['code']['hash_unstable'] = True
@@ -191,6 +200,21 @@ def mode_forms(env, payload):
                 r['code']['1' if od else '0'] = 'ERR:' + errclass(e)
         res.append(r)
     return {'results': res}
+
+
+def mode_confirm(env, payload):
+    """canonical shas of `n` independent generations of each (spec, on_demand)"""
+    out = {}
+    for spec in payload['specs']:
+        for od in (False, True):
+            got = set()
+            for _ in range(payload.get('n', 10)):
+                try:
+                    got.add(csha(env.compile.generate(env.build(spec), on_demand=od)))
+                except Exception as e:  # noqa
+                    got.add('ERR:' + errclass(e))
+            out['%s:%d' % (spec['id'], od)] = sorted(got)
+    return {'sets': out}
 
 
 def mode_codes(env, payload):
@@ -241,7 +265,7 @@ def mode_cache(env, payload):
                 asm = compile.compile_vform(vf, on_demand=bool(od))
                 miss = ngen[0] > n0
                 if isinstance(asm, MarkerAsm):
-                    obs.append({'src': sha(asm.src), 'miss': miss})
+                    obs.append({'src': csha(asm.src), 'raw': sha(asm.src), 'miss': miss})
                 elif asm in shipped:
                     obs.append({'shipped': shipped[asm], 'miss': miss})
                 else:
@@ -350,7 +374,7 @@ def main():
     payload = json.load(sys.stdin)
     env = Env()
     mode = payload['mode']
-    res = {'forms': mode_forms, 'codes': mode_codes, 'cache': mode_cache, 'fresh': mode_fresh, 'build': mode_build}[mode](env, payload)
+    res = {'forms': mode_forms, 'codes': mode_codes, 'confirm': mode_confirm, 'cache': mode_cache, 'fresh': mode_fresh, 'build': mode_build}[mode](env, payload)
     sys.stdout.write('\n' + json.dumps(res) + '\n')
 
 
